@@ -33,7 +33,7 @@ func init() {
 
 var c13Hosts = []string{
 	"example.com", "Example.COM", "a.b-c.example.org", "example.com:8080", "EXAMPLE.com:443", "10.0.0.1", "10.0.0.1:81", "[2001:db8::1]", "[2001:DB8::a]:8443", "[::1]",
-	"localhost", "localhost:3000", "xn--bcher-kva.example", "kelvin.example", "ss.example", "k.example", "s", "sk-api.internal:9443",
+	"localhost", "localhost:3000", "127.0.0.1:8080", "127.0.0.1", "[::1]:9000", "xn--bcher-kva.example", "kelvin.example", "ss.example", "k.example", "s", "sk-api.internal:9443",
 	"a\xffb.example", "caf\xc3\xa9.example", "\xc3\xa9", "x\x80\x81.example:80",
 }
 
@@ -55,7 +55,27 @@ func mutateHost(r *gen.R, h string) (string, string) {
 	const al = "abcdefghijklmnopqrstuvwxyz0123456789-."
 	for try := 0; try < 100; try++ {
 		var m, kind string
-		switch r.Intn(19) {
+		switch r.Intn(22) {
+		case 19:
+			// one byte with its top bit set (what a table indexed with b&0x7f would fold back)
+			b := []byte(name)
+			i := r.Intn(len(b))
+			if b[i] >= 0x80 {
+				continue
+			}
+			if r.Bool() && (b[i]|0x20) >= 'a' && (b[i]|0x20) <= 'z' {
+				b[i] ^= 0x20
+			}
+			b[i] |= 0x80
+			m, kind = string(b)+port, "top-bit-set-lookalike"
+		case 20, 21:
+			// another spelling of the loopback host, same port
+			lb := map[string][]string{"localhost": {"127.0.0.1", "[::1]", "127.0.0.2", "LOCALHOST."}, "[::1]": {"localhost", "127.0.0.1", "[0:0:0:0:0:0:0:1]"}, "127.0.0.1": {"localhost", "[::1]", "127.1", "127.0.0.2"}}
+			alts, ok := lb[strings.ToLower(name)]
+			if !ok {
+				continue
+			}
+			m, kind = alts[r.Intn(len(alts))]+port, "other-loopback-spelling"
 		case 16:
 			// the same name with an empty port, or the port with nothing behind the colon removed
 			if port == "" {
